@@ -378,9 +378,33 @@ def observe(sc: dict, o: dict) -> tuple[dict | None, str]:
     req: dict[str, list] = {}
     present: dict[str, list] = {}
     back: dict[str, list] = {}
-    if kind == "props":
-        if models_broken:
+    via_ast = False
+    if kind in ("props", "enum") and models_broken:
+        # the module does not import (C01's domain) - but when it PARSES, the syntax tree still shows every definition,
+        # duplicates included (a member defined twice is a TypeError at import time): judge the allocation from it
+        recs = nam.get("model_ast") or []
+        if not recs or not all(r["parse_ok"] for r in recs):
             return None, "unimportable"
+        want = (lambda c: c["name"] == "Holder") if kind == "props" else (lambda c: "Enum" in c["bases"])
+        cl = [c for r in recs for c in r["classes"] if want(c)]
+        if len(cl) != 1:
+            return None, "unimportable"
+        c = cl[0]
+        via_ast = True
+        if kind == "props":
+            for k, v in c["load"]:
+                if k in names:
+                    ev.append(_ev("props", k, v))
+            present["props"] = [cps(p) for p in c["fields"]]
+            back["props"] = [[cps(k), cps(v)] for k, v in c["dump"] if isinstance(k, str) and isinstance(v, str)]
+        else:
+            for nm, val in c["assigns"]:
+                if val in names:
+                    ev.append(_ev("enum", val, nm))
+            present["enum"] = [cps(nm) for nm, _ in c["assigns"]]
+            back["enum"] = [[cps(nm), cps(val)] for nm, val in c["assigns"] if isinstance(val, str)]
+        req[kind] = [cps(n) for n in names]
+    elif kind == "props":
         cl = [c for c in models.get("classes", []) if c["kind"] == "dataclass" and c["cls"] == "Holder"]
         if len(cl) != 1:
             return None, "unimportable" if not cl else "ambiguous"
@@ -395,8 +419,6 @@ def observe(sc: dict, o: dict) -> tuple[dict | None, str]:
         present["props"] = [cps(p) for p in pys]
         back["props"] = [[cps(p), cps(c["dump"].get(p, p))] for p in pys]
     elif kind == "enum":
-        if models_broken:
-            return None, "unimportable"
         cl = [c for c in models.get("classes", []) if c["kind"] == "enum"]
         if len(cl) != 1:
             return None, "unimportable" if not cl else "ambiguous"
@@ -499,7 +521,7 @@ def observe(sc: dict, o: dict) -> tuple[dict | None, str]:
             req[nsid] = [cps(n) for i, n in enumerate(names) if tag in sc["tags"][i]]
             present[nsid] = [cps(fn) for fn in live]
             back[nsid] = [[cps(fn), cps(token[tk])] for fn, info in live.items() for tk in info["tokens"] if tk in token]
-    return {"ev": ev, "req": req, "present": present, "back": back}, ""
+    return {"ev": ev, "req": req, "present": present, "back": back, "_ast": via_ast}, ""
 
 
 def partner(t: dict, f: dict) -> list[str]:
@@ -563,6 +585,9 @@ def part_ii(chk: Check, scens: list[dict], label: str = "packages") -> None:
                 chk.note_drift(f"{label}: observer could not read the {sc['ns']} namespace of {sc['names']} ({why})")
             continue
         t["id"] = j["id"]
+        if t.pop("_ast", False):
+            key = f"judged_from_syntax_tree[{sc['ns']}]"
+            chk.cov[key] = chk.cov.get(key, 0) + 1
         traces.append(t)
         meta[j["id"]] = (sc, d)
         per_ns[sc["ns"]] = per_ns.get(sc["ns"], 0) + 1
